@@ -135,6 +135,7 @@ pub fn scenarios(prop: &str, thorough: bool) -> Vec<Scenario> {
         }
         "C06" | "C19" => {
             v.extend(held_family(thorough));
+            v.extend(scenarios("C07", thorough).into_iter().filter(|s| s.name.starts_with("Big/")));
             // small scripts, explored with a higher preemption bound
             for pool in [1usize, 2] {
                 for (xi, x) in [None, Some(UOp::Reparse(0, "ab")), Some(UOp::Reparse(0, "b")), Some(UOp::Restart(false))].iter().enumerate() {
@@ -330,6 +331,35 @@ pub fn scenarios(prop: &str, thorough: bool) -> Vec<Scenario> {
                                 flag_points: false,
                             });
                         }
+                    }
+                }
+            }
+            // (Big) the same protocol at sizes where the worker's chunking, the vector's bucket
+            // boundaries and the parallel sort's thresholds matter: n items with many equal scores,
+            // an append edit, one more item, drain; the final snapshot must be the from-scratch result
+            {
+                let pool_texts: [&str; 8] = ["a", "ab", "xab", "b", "ba", "a b", "Ab", "zzz"];
+                // around the vector's bucket boundaries (32, 96, 224, 480, 992, 2016, 4064), its
+                // pre-allocated capacity (1024) and the parallel sort's threshold (2000)
+                let sizes: &[usize] = if thorough { &[1, 31, 32, 33, 95, 96, 97, 223, 224, 225, 479, 480, 481, 991, 992, 993, 1023, 1024, 1025, 2000, 2001, 2015, 2016, 2017, 4065, 5000] } else { &[33, 97, 993, 1025, 2017] };
+                for &n in sizes {
+                    for pool in [1usize, 2] {
+                        if pool == 2 && !thorough && n != 2017 {
+                            continue;
+                        }
+                        let preload: Vec<ItemSpec> = (0..n).map(|i| it(1000 + i as u32, pool_texts[(i * 5 + i / 8) % 8])).collect();
+                        v.push(Scenario {
+                            name: format!("Big/pool{pool}/n{n}"),
+                            pool_threads: pool,
+                            columns: 1,
+                            preload,
+                            u: vec![UOp::Reparse(0, "a"), UOp::Tick, UOp::Reparse(0, "ab"), UOp::Tick, UOp::Push(it(1, "ab")), UOp::Drain(6)],
+                            injectors: vec![],
+                            slots: 0,
+                            bound: 0,
+                            fine: false,
+                            flag_points: false,
+                        });
                     }
                 }
             }
@@ -595,6 +625,12 @@ pub fn scenarios(prop: &str, thorough: bool) -> Vec<Scenario> {
         let small = s.name.starts_with("As/") || s.name.starts_with("Bs/");
         if small && !thorough {
             s.fine = false;
+        }
+        if s.name.starts_with("Big/") {
+            // thousands of items: default schedule plus the free choices (tick timing out or not)
+            s.bound = 0;
+            s.fine = false;
+            continue;
         }
         s.bound = match (prop, thorough) {
             ("C13", false) => 1,
